@@ -95,13 +95,31 @@ def cases(tier, seed, prop):
     out = [{'s': s, 'g': 'exh'} for s in gens.all_strings(gens.MATH_ALPHA, L)]
     n = 8000 if tier == 'quick' else 100000
     for _ in range(n // 2):
-        out.append({'s': ''.join(rnd.choice(gens.MATH_ALPHA + ['10', '0', '.5', '(1+2)', '-', 'a', '٣', '()', '(2)', ')(', '(3)(4)', '+()', 'foo', ' = ', 'x', '$', ',', '))', ') )', '1.2.3', '..']) for _ in range(rnd.randint(6, 14))), 'g': 'rand'})
+        out.append({'s': ''.join(rnd.choice(gens.MATH_ALPHA + ['10', '0', '.5', '(1+2)', '-', 'a', '٣', '()', '(2)', ')(', '(3)(4)', '+()', 'foo', ' = ', 'x', '$', ',', '))', ') )', '1.2.3', '..', '\u00b2', '\u2460', '\u00bd']) for _ in range(rnd.randint(6, 14))), 'g': 'rand'})
     for _ in range(n):
         t, v, f = gen_expr(rnd, 3, [rnd.randint(0, 9)])
         # an evaluation order that divides by zero in a sub-term the spec also flags; mixed outcomes are compared as given
         c = {'s': t, 'g': 'expr', 'val': 'zerodiv' if v == 'zerodiv' else [v.numerator, v.denominator]}
         if v != 'zerodiv' and '\\' in t: c['fval'] = repr(f)
         out.append(c)
+    # malformed by construction (the statement: malformed input raises the module's parse error): a valid expression with one defect
+    for _ in range(n // 4):
+        t, v, f = gen_expr(rnd, 2, [rnd.randint(0, 6)])
+        t = t.strip()
+        k = rnd.randrange(8)
+        nums = list(__import__('re').finditer(r'\d+(?:\.\d+)?|\.\d+', t))
+        if k == 0 and nums:
+            m = rnd.choice(nums); bad = t[:m.start()] + '()' + t[m.end():]; why = 'an empty pair of parentheses where an operand belongs'
+        elif k == 1: bad = t + ')'; why = 'a closing parenthesis that was never opened'
+        elif k == 2: bad = '(' + t; why = 'an opening parenthesis that is never closed'
+        elif k == 3: bad = t + rnd.choice(['+', '*', '/', ' -', '\\']); why = 'a trailing operator'
+        elif k == 4: bad = t + ' ' + rnd.choice(['1', '2.5', '(3)']); why = 'two expressions side by side'
+        elif k == 5 and nums:
+            m = rnd.choice(nums); bad = t[:m.end()] + rnd.choice([' * /', '/*', ' + *']) + ' 2' + t[m.end():]; why = 'two binary operators in a row'
+        elif k == 6: bad = ')' + t + '('; why = 'parentheses the wrong way round'
+        else: bad = '(' + t + ')(' + rnd.choice(['2', '1+1']) + ')'; why = 'a group directly after a group'
+        if k == 5 and nums and bad.rstrip().endswith(('* / 2', '/* 2', '+ * 2')) is False and False: pass
+        out.append({'s': bad, 'g': 'malformed', 'malformed': why})
     return out
 
 
@@ -210,6 +228,8 @@ def run(case, prop):
     tags['eval:' + e.split(' ')[0] + ('' if e.startswith('ok') else ' ' + e.split(' ')[0])] = 1
     if e.startswith('internal') or p.startswith('internal'):
         viol.append('internal-error| evaluate/parse raised %s (only the parse error and ZeroDivisionError are allowed)' % (e if e.startswith('internal') else p).split(' ', 1)[1])
+    if 'malformed' in case and not e.startswith('math') and not e.startswith('internal'):
+        viol.append('accepted-malformed| %r has %s, evaluate gives %s instead of the parse error' % (s, case['malformed'], e))
     if 'val' in case:
         want = case['val']
         if want == 'zerodiv':
